@@ -405,6 +405,9 @@ Definition int_digest_block (wire1 : list bytes) (npos : nat) (app : option (lis
 
 Definition make_interest (nm : name) (cfg : iconfig) (app : option (list bytes)) (sg : option signer) : res encoded :=
   let need := match app with Some _ => true | None => false end in
+  (* without ApplicationParameters the name must not carry a parameters digest (ReadInterest rejects such a packet);
+     a trailing one has been dropped by int_name *)
+  if negb need && existsb is_digest_comp (int_name nm need) then Err else
   do (si, est) <- int_siginfo sg need;
   let nm1 := int_name nm need in
   let i := mkInt (Some nm1) (ic_cbp cfg) (ic_mbf cfg) (ic_fh cfg) (option_map (fun x => x mod 4294967296) (ic_nonce cfg))
